@@ -45,7 +45,7 @@ LEVEL_NOTE = (
     "float rounding and the float64->x0.dtype casts are not modelled; the ast translator is trusted to read solver.py."
 )
 PROP_MODULES = ["Scico.Props.C18"]
-EXTRA_TARGETS = ["Drv.Wrap", "Scico.Proofs.WrapKwargs"]
+EXTRA_TARGETS = ["Drv.Wrap", "Scico.Proofs.WrapKwargs", "Scico.Proofs.WrapSource"]
 DRIVER = "Wrap"
 FILES = ["scico/solver.py"]
 RULE = (
@@ -72,7 +72,12 @@ NEEDS_HESS = {"Newton-CG": "hessp", "dogleg": "hess", "trust-ncg": "hessp", "tru
 def generate(ctx):
     tabs = translate_kwargs.generate()
     ctx.extra["keyword_tables"] = {k: ({kk: vv for kk, vv in v.items() if kk != "callExprs"} if isinstance(v, dict) else v) for k, v in tabs.items()}
-    return [("Scico.Generated.Kwargs", "keyword routing of minimize/minimize_scalar: nothing silently ignored, pass-through verbatim, keywords exist in scipy, gradient-method list")]
+    import block_translate
+
+    src = block_translate.generate("wrap")
+    ctx.extra["source_skeletons"] = {k: len(v) for k, v in src}
+    return [("Scico.Generated.Kwargs", "keyword routing of minimize/minimize_scalar: nothing silently ignored, pass-through verbatim, keywords exist in scipy, gradient-method list, defaults"),
+            ("Scico.Generated.WrapSource", "normalised decision structure of _ravel/_unravel/_wrap_func/_wrap_func_and_grad/_split_real_imag/_join_real_imag/minimize/minimize_scalar = pinned skeletons")]
 
 
 # ---------------------------------------------------------------------------------------------
